@@ -16,6 +16,15 @@
 (*       (fixes/D10-react-return-directly-race.diff).  RdVar = "ctor"      *)
 (*       models the mutation "the return-directly call id is kept in a     *)
 (*       constructor variable instead of the per-call state".              *)
+(*   message lists are Go slices: (backing array, len) over a heap of      *)
+(*       arrays with spare capacity.  InputMode = "sharedcap": all callers *)
+(*       pass the SAME input slice (len 1, spare capacity) and the same    *)
+(*       user message (the conversation tag travels in the context);       *)
+(*       "own": every caller has its own input array (also with spare      *)
+(*       capacity).  HistMode = "copy": the model pre-handler appends the  *)
+(*       input to the run's own history array (react.go:191); "adopt" =    *)
+(*       the seeded defect `state.Messages = input` on the first round, so *)
+(*       later rounds append into the caller's backing array.              *)
 (* One action per node execution / closure step of a call; all             *)
 (* interleavings of the callers.  Every observable step of call k is fed   *)
 (* to AgentIsoRule!Apply on k's own rule state (the per-call projection).  *)
@@ -31,74 +40,109 @@ CONSTANTS NC,          \* callers 2..3
           Scripts,     \* set of n*10+d codes a caller may use: 0, 10, 11, 20, 21, 22
           StateMode,   \* "percall" | "shared"
           ErrVar,      \* "ascoded" | "repaired"
-          RdVar        \* "state" | "ctor"
+          RdVar,       \* "state" | "ctor"
+          InputMode,   \* "own" | "sharedcap"
+          HistMode     \* "copy" | "adopt"
 
 Callers == 1..NC
 Tags == <<"v1k1r1", "v1k2r1", "v1k3r1">>
-CaseOf(k, code) == [ev |-> "case", id |-> Tags[k], agent |-> "react", tag |-> Tags[k], n |-> code \div 10, d |-> code % 10, w |-> 0, modifier |-> FALSE]
+UserOf(k, code) == IF InputMode = "sharedcap" THEN "q|shared" ELSE "q|" \o Tags[k] \o "|" \o ToString(code \div 10) \o "|" \o ToString(code % 10)
+CaseOf(k, code) == [ev |-> "case", id |-> Tags[k], agent |-> "react", tag |-> Tags[k], user |-> UserOf(k, code), n |-> code \div 10, d |-> code % 10,
+                    w |-> 0, modifier |-> FALSE]
 
-VARIABLES cs, pc, obj, inp, out, res, msg, S, cerr, crdid, touched, active, overlap, raced
-vars == <<cs, pc, obj, inp, out, res, msg, S, cerr, crdid, touched, active, overlap, raced>>
+\* heap of arrays: 0 the callers' shared input array, 1..NC the history arrays made by the state generator per run, NC+1 the
+\* history array a compile-time generator would have made, NC+1+k caller k's own input array
+Cap == 6
+Null == Msg("", "")
+Arrs == 0..(2 * NC + 1)
+InArr(k) == IF InputMode = "sharedcap" THEN 0 ELSE NC + 1 + k
+Blank == [i \in 1..Cap |-> Null]
 
-NewObj == [msgs |-> <<>>, rdid |-> ""]
+VARIABLES cs, pc, heap, obj, inp, out, res, msg, S, cerr, crdid, touched, active, overlap, raced
+vars == <<cs, pc, heap, obj, inp, out, res, msg, S, cerr, crdid, touched, active, overlap, raced>>
+
+NewObj(a) == [arr |-> a, len |-> 0, rdid |-> ""]
+C(k) == CaseOf(k, cs[k])
 Init == /\ cs \in [Callers -> Scripts]
         /\ pc = [k \in Callers |-> "idle"]
-        /\ obj = [o \in 0..NC |-> NewObj]        \* obj[0]: the object a compile-time generator would have made
-        /\ inp = [k \in Callers |-> <<>>] /\ out = [k \in Callers |-> Msg("", "")] /\ res = [k \in Callers |-> Msg("", "")]
+        /\ heap = [a \in Arrs |-> IF a = 0 \/ a > NC + 1 THEN [Blank EXCEPT ![1] = Msg("user", UserOf(IF a = 0 THEN 1 ELSE a - NC - 1, CHOOSE x \in Scripts : TRUE))]
+                                  ELSE Blank]
+        /\ obj = [o \in 0..NC |-> NewObj(IF o = 0 THEN NC + 1 ELSE o)]
+        /\ inp = [k \in Callers |-> <<>>] /\ out = [k \in Callers |-> Null] /\ res = [k \in Callers |-> Null]
         /\ msg = [k \in Callers |-> <<>>]
         /\ S = [k \in Callers |-> Idle]
-        /\ cerr = "nil" /\ crdid = "" /\ touched = {} /\ active = {} /\ overlap = {} /\ raced = FALSE
+        /\ cerr = "nil" /\ crdid = "" /\ touched = [v \in {"err", "input"} |-> {}] /\ active = {} /\ overlap = {} /\ raced = FALSE
 
-C(k) == CaseOf(k, cs[k])
 O(k) == IF StateMode = "percall" THEN k ELSE 0
+Read(h, sl) == SubSeq(h[sl.arr], 1, sl.len)
+\* append(slice, ms...): the cells behind len are written in place (the capacity always suffices here)
+Put(h, sl, ms) == [h EXCEPT ![sl.arr] = [i \in 1..Cap |-> IF i > sl.len /\ i <= sl.len + Len(ms) THEN ms[i - sl.len] ELSE @[i]]]
+
+\* an unsynchronised access of call k to a variable shared by construction ("err") or to the callers' shared array ("input")
+Touch(v, k) == /\ raced' = (raced \/ \E j \in touched[v] \ {k} : {k, j} \in overlap)
+               /\ touched' = [touched EXCEPT ![v] = @ \cup {k}]
 
 Begin(k) ==
   /\ pc[k] = "idle"
   /\ pc' = [pc EXCEPT ![k] = "chat"]
   /\ active' = active \cup {k}
   /\ overlap' = overlap \cup {{k, j} : j \in active}
-  /\ obj' = IF StateMode = "percall" THEN [obj EXCEPT ![k] = NewObj] ELSE obj
-  /\ inp' = [inp EXCEPT ![k] = <<UserR(C(k))>>]
+  /\ obj' = IF StateMode = "percall" THEN [obj EXCEPT ![k] = NewObj(k)] ELSE obj
+  /\ heap' = [heap EXCEPT ![k] = Blank, ![InArr(k)] = IF InputMode = "own" THEN [Blank EXCEPT ![1] = UserR(C(k))] ELSE @]
+  /\ inp' = [inp EXCEPT ![k] = <<>>]        \* first round: the input is the caller's slice (InArr(k), len 1)
   /\ S' = [S EXCEPT ![k] = Apply(Apply(Idle, C(k)), [ev |-> "call", mode |-> "generate"])]
   /\ UNCHANGED <<cs, out, res, msg, cerr, crdid, touched, raced>>
 
-\* the stateless chat model: owner of the first user message, j = tool messages so far
-Users == {UserR(C(k)) : k \in Callers}
-ModelAnswer(h) ==
-  LET us == {i \in 1..Len(h) : h[i] \in Users}
-      first == CHOOSE i \in us : \A j \in us : i <= j
-      own == CHOOSE k \in Callers : UserR(C(k)) = h[first]
-      j == Cardinality({i \in 1..Len(h) : h[i].role = "tool"}) IN
-  IF j >= C(own).n THEN FinalR(C(own)) ELSE AsstR(C(own), j + 1)
-TagsIn(h) == LET own(m) == {Tags[k] : k \in {x \in Callers : m \in {UserR(C(x)), FinalR(C(x))} \/ \E j \in 1..2 : m \in {AsstR(C(x), j), ToolR(C(x), j)}}} IN
+\* the stateless chat model: the conversation is the one of the tag carried by the context, j = tool messages so far
+ModelAnswer(k, h) ==
+  LET j == Cardinality({i \in 1..Len(h) : h[i].role = "tool"}) IN
+  IF j >= C(k).n THEN FinalR(C(k)) ELSE AsstR(C(k), j + 1)
+TagsIn(h) == LET own(m) == {Tags[k] : k \in {x \in Callers : m = FinalR(C(x)) \/ \E j \in 1..2 : m \in {AsstR(C(x), j), ToolR(C(x), j)}}} IN
              LET RECURSIVE F(_) F(i) == IF i > Len(h) THEN {} ELSE own(h[i]) \cup F(i + 1) IN F(1)
 SeqOf(T) == LET RECURSIVE F(_) F(X) == IF X = {} THEN <<>> ELSE LET x == CHOOSE y \in X : TRUE IN <<x>> \o F(X \ {x}) IN F(T)
 
+\* react.go:190-200, the model pre-handler
 Chat(k) ==
   /\ pc[k] = "chat"
-  /\ LET h == obj[O(k)].msgs \o inp[k] IN
-       /\ obj' = [obj EXCEPT ![O(k)].msgs = h]
-       /\ S' = [S EXCEPT ![k] = Apply(@, [ev |-> "mcall", who |-> "chat", input |-> h, tags |-> SeqOf(TagsIn(h))])]
-       /\ out' = [out EXCEPT ![k] = ModelAnswer(h)]
+  /\ LET o == obj[O(k)]
+         first == inp[k] = <<>>
+         insl == [arr |-> InArr(k), len |-> 1]
+         adopt == first /\ HistMode = "adopt" /\ o.len = 0
+         ms == IF first THEN Read(heap, insl) ELSE inp[k]
+         sl2 == IF adopt THEN insl ELSE [arr |-> o.arr, len |-> o.len + Len(ms)]
+         h2 == IF adopt THEN heap ELSE Put(heap, o, ms)
+         hist == Read(h2, sl2) IN
+       /\ heap' = h2
+       /\ obj' = [obj EXCEPT ![O(k)].arr = sl2.arr, ![O(k)].len = sl2.len]
+       /\ S' = [S EXCEPT ![k] = Apply(@, [ev |-> "mcall", who |-> "chat", input |-> hist, tags |-> SeqOf(TagsIn(hist))])]
+       /\ out' = [out EXCEPT ![k] = ModelAnswer(k, hist)]
+       /\ IF o.arr = 0 /\ ~first THEN Touch("input", k) ELSE UNCHANGED <<raced, touched>>
   /\ pc' = [pc EXCEPT ![k] = "branch"]
-  /\ UNCHANGED <<cs, inp, res, msg, cerr, crdid, touched, active, overlap, raced>>
+  /\ UNCHANGED <<cs, inp, res, msg, cerr, crdid, active, overlap>>
 
-Finish(T, k) == Apply(Apply(T, [ev |-> "endcall"]), [ev |-> "end"])
+\* what the caller finds in its input slice afterwards
+InputEv(k) == LET a == heap[InArr(k)] IN
+              [ev |-> "input", first |-> a[1], beyond |-> SelectSeq(SubSeq(a, 2, Cap), LAMBDA m : m # Null)]
+Finish(T, k) == Apply(Apply(Apply(T, [ev |-> "endcall"]), InputEv(k)), [ev |-> "end"])
 Branch(k) ==
   /\ pc[k] = "branch"
   /\ IF Len(out[k].calls) = 0
      THEN /\ S' = [S EXCEPT ![k] = Finish(Apply(@, [ev |-> "answer", msg |-> out[k], tags |-> SeqOf(TagsIn(<<out[k]>>))]), k)]
           /\ pc' = [pc EXCEPT ![k] = "done"] /\ active' = active \ {k}
      ELSE /\ pc' = [pc EXCEPT ![k] = "toolspre"] /\ UNCHANGED <<S, active>>
-  /\ UNCHANGED <<cs, obj, inp, out, res, msg, cerr, crdid, touched, overlap, raced>>
+  /\ UNCHANGED <<cs, heap, obj, inp, out, res, msg, cerr, crdid, touched, overlap, raced>>
 
 RdIdOf(m) == IF m.calls[1].name = "trd" THEN m.calls[1].id ELSE ""
+\* react.go:210-214, the tools pre-handler
 ToolsPre(k) ==
   /\ pc[k] = "toolspre"
-  /\ obj' = [obj EXCEPT ![O(k)].msgs = Append(@, out[k]), ![O(k)].rdid = RdIdOf(out[k])]
+  /\ LET o == obj[O(k)] IN
+       /\ heap' = Put(heap, o, <<out[k]>>)
+       /\ obj' = [obj EXCEPT ![O(k)].len = o.len + 1, ![O(k)].rdid = RdIdOf(out[k])]
+       /\ IF o.arr = 0 THEN Touch("input", k) ELSE UNCHANGED <<raced, touched>>
   /\ crdid' = (IF RdVar = "ctor" THEN RdIdOf(out[k]) ELSE crdid)
   /\ pc' = [pc EXCEPT ![k] = "tool"]
-  /\ UNCHANGED <<cs, inp, out, res, msg, S, cerr, touched, active, overlap, raced>>
+  /\ UNCHANGED <<cs, inp, out, res, msg, S, cerr, active, overlap>>
 
 Tool(k) ==
   /\ pc[k] = "tool"
@@ -108,20 +152,16 @@ Tool(k) ==
        /\ S' = [S EXCEPT ![k] = Apply(@, [ev |-> "tool", name |-> cl.name, args |-> cl.args, out |-> o, tags |-> SeqOf(TagsIn(<<tm>>))])]
        /\ res' = [res EXCEPT ![k] = tm]
   /\ pc' = [pc EXCEPT ![k] = "rdbranch"]
-  /\ UNCHANGED <<cs, obj, inp, out, msg, cerr, crdid, touched, active, overlap, raced>>
+  /\ UNCHANGED <<cs, heap, obj, inp, out, msg, cerr, crdid, touched, active, overlap, raced>>
 
 RdId(k) == IF RdVar = "ctor" THEN crdid ELSE obj[O(k)].rdid
 RdBranch(k) ==
   /\ pc[k] = "rdbranch"
   /\ IF RdId(k) # "" THEN pc' = [pc EXCEPT ![k] = "direct1"] /\ UNCHANGED inp
      ELSE pc' = [pc EXCEPT ![k] = "chat"] /\ inp' = [inp EXCEPT ![k] = <<res[k]>>]
-  /\ UNCHANGED <<cs, obj, out, res, msg, S, cerr, crdid, touched, active, overlap, raced>>
+  /\ UNCHANGED <<cs, heap, obj, out, res, msg, S, cerr, crdid, touched, active, overlap, raced>>
 
-\* one access of call k to the constructor's variable `err`
-Access(k) == IF ErrVar = "ascoded"
-             THEN /\ raced' = (raced \/ \E j \in touched \ {k} : {k, j} \in overlap)
-                  /\ touched' = touched \cup {k}
-             ELSE UNCHANGED <<raced, touched>>
+Access(k) == IF ErrVar = "ascoded" THEN Touch("err", k) ELSE UNCHANGED <<raced, touched>>
 \* react.go:257  err = compose.ProcessState(...): picks the message whose ToolCallID is the recorded one
 Direct1(k) ==
   /\ pc[k] = "direct1"
@@ -129,7 +169,7 @@ Direct1(k) ==
   /\ cerr' = (IF ErrVar = "ascoded" THEN "nil" ELSE cerr)
   /\ Access(k)
   /\ pc' = [pc EXCEPT ![k] = "direct2"]
-  /\ UNCHANGED <<cs, obj, inp, out, res, S, crdid, active, overlap>>
+  /\ UNCHANGED <<cs, heap, obj, inp, out, res, S, crdid, active, overlap>>
 \* react.go:266  if err != nil ...; msg == nil => ErrNoValue => the answer stream is empty
 Direct2(k) ==
   /\ pc[k] = "direct2"
@@ -137,7 +177,7 @@ Direct2(k) ==
   /\ S' = [S EXCEPT ![k] = Finish(Apply(@, IF msg[k] = <<>> THEN [ev |-> "error", text |-> "empty answer stream"]
                                            ELSE [ev |-> "answer", msg |-> msg[k][1], tags |-> SeqOf(TagsIn(msg[k]))]), k)]
   /\ pc' = [pc EXCEPT ![k] = "done"] /\ active' = active \ {k}
-  /\ UNCHANGED <<cs, obj, inp, out, res, msg, cerr, crdid, overlap>>
+  /\ UNCHANGED <<cs, heap, obj, inp, out, res, msg, cerr, crdid, overlap>>
 
 Done == (\A k \in Callers : pc[k] = "done") /\ UNCHANGED vars
 Next == (\E k \in Callers : Begin(k) \/ Chat(k) \/ Branch(k) \/ ToolsPre(k) \/ Tool(k) \/ RdBranch(k) \/ Direct1(k) \/ Direct2(k)) \/ Done
